@@ -17,6 +17,8 @@ def run(tier, seed):
     samples = []
     for net, cfg, prague in (("regtest", "TraceRef.cfg", 0), ("signet", "TraceRef_signet.cfg", 275000)):
         ss, r = tracecheck.gen_schedules("c19_" + net, "probe", n, seed + (0 if net == "regtest" else 5), maxlen=42, prague=prague)
+        import directed
+        ss = directed.c19_family(tier) + ss
         tracecheck.VALIDATE_CFG[0] = cfg
         try:
             c = tracecheck.run_corpus("C19", "c19_" + net, ss, v, shards=8, net=net, light=True)
